@@ -458,7 +458,12 @@ func parseRealms(lines []string) (realms []Realm, err error) {
 			c--
 			if c == 0 {
 				var r Realm
-				e := r.parseLines(name, lines[start+1:i])
+				// The block may be closed on the line that opened it ("REALM = { }"): it then has no lines.
+				var body []string
+				if start+1 <= i {
+					body = lines[start+1 : i]
+				}
+				e := r.parseLines(name, body)
 				if e != nil {
 					if _, ok := e.(UnsupportedDirective); !ok {
 						err = e
